@@ -46,6 +46,10 @@ pub fn eintr_every(n: i64) {
 pub fn mmap_fail(n: i64) {
     call_long("vshim_mmap_fail", n as libc::c_long)
 }
+/// the n-th following recv() of this thread on a tracked socket fails with EINTR (a signal without SA_RESTART)
+pub fn recv_eintr(n: i64) {
+    call_long("vshim_recv_eintr", n as libc::c_long)
+}
 pub fn arm_kill(k: i64) {
     call_long("vshim_arm_kill", k as libc::c_long)
 }
